@@ -36,8 +36,11 @@ var lib = map[string][2]string{
 	"bad":   {"x{{ 1/0 }}", "y{{ x|nofilter }}"},
 	"sb":    {"{% include 'a' sandboxed %}{{ x|upper }}", "{% include 'a' sandboxed %}"},
 	"j":     {"{{ xs|json_encode }}{% set q = xs|length %}{{ q }}", "{{ x|json_encode }}"},
+	// names that are only defined if something leaks from an earlier render
+	"um": {"{{ m(5) }}", "{{ l.m(5) }}"},
+	"ub": {"[{{ block('k') }}{{ q }}{{ p }}]", "{% block j %}{{ q }}{% endblock %}"},
 }
-var names = []string{"a", "b", "loop", "inc", "base", "child", "lib", "use", "bad", "sb", "j"}
+var names = []string{"a", "b", "loop", "inc", "base", "child", "lib", "use", "bad", "sb", "j", "um", "ub"}
 
 // templates served by an ArrayLoader (re-read when the cache is off)
 var loaded = map[string]string{
